@@ -421,6 +421,13 @@ func (rs *ResourceSubscription) processGetResponse(payload []byte, err error) (n
 		i++
 	}
 
+	// If the normalized query is still being requested, the response to that
+	// request will load all its subscribers, including the ones copied over
+	// above. Loading them now would have them loaded twice.
+	if nrs != rs && nrs.state == stateRequested {
+		return nrs, nil
+	}
+
 	// Exit if another request has already progressed the state.
 	// Might happen when making a query subscription, directly followed by
 	// another subscription using the normalized query of the previous.
